@@ -33,6 +33,8 @@ VALUE_TYPES = (repo.Fixed, repo.Guarded)
 PROFILES = {
     'P1': blt.render(4, 2, [(3, (1, 2, 3)), (2, (2, 1)), (1, (3, 4)), (1, (4, 3)), (1, (2, 4))]),
     'P2': blt.render(3, 1, [(2, (1, 2)), (2, (2, 1)), (1, (3, 1))], tie=(3, 2, 1)),
+    # under-supported second seat, near-equal comparisons (leaves a non-zero Guarded.maxDiff behind), one ranking on two separate lines
+    'P4': blt.render(3, 2, [(2, (1,)), (1, (1, 2)), (1, (1,)), (1, (1, 3))]),
     'P3': blt.render(4, 2, [(2, ((1, 2), 3)), (2, (3, (1, 4))), (1, (4,)), (2, (2, 1)), (1, ((3, 4), 2))]),   # equal ranks (meek/warren read them)
 }
 
@@ -46,7 +48,7 @@ def letters(tier):
     if tier == 'thorough':
         variants += [{'arithmetic': 'fixed', 'precision': 9, 'display': 0}, {'arithmetic': 'guarded', 'precision': 9, 'guard': 9, 'display': 12},
                      {'arithmetic': 'rational', 'display': 0, 'omega': 2}, {'arithmetic': 'guarded', 'precision': 2, 'guard': 0, 'display': 1}]
-    profs = ['P1', 'P2', 'P3'] if tier == 'thorough' else ['P1', 'P3']
+    profs = ['P1', 'P2', 'P4', 'P3'] if tier == 'thorough' else ['P1', 'P4', 'P3']
     for p in profs:
         for r in rules:
             if p == 'P3' and r not in ('meek', 'warren', 'meek-prf', 'wigm'):
